@@ -2,6 +2,7 @@ package main
 
 import (
 	"bytes"
+	"encoding/json"
 	"fmt"
 	"io"
 	"regexp"
@@ -631,7 +632,12 @@ func runC11(prop string, res *Result, pool *DrvPool, r *Rng) {
 		rd := &SchedReader{data: []byte(input), sched: sched, final: io.EOF}
 		var violation string
 		readsAfterTerm := 0
+		var obs [][3]int // per Read: delivered before, returned, written so far
 		rd.OnRead = func(delivered int) {
+			if n := len(obs); n > 0 {
+				obs[n-1][1] = delivered - obs[n-1][0]
+			}
+			obs = append(obs, [3]int{delivered, 0, w.buf.Len()})
 			// complete pass-through lines delivered so far
 			d := delivered
 			if d > len(pass) {
@@ -646,9 +652,28 @@ func runC11(prop string, res *Result, pool *DrvPool, r *Rng) {
 			}
 		}
 		var p interface{}
+		schedCopy := append([]int{}, sched...)
 		p = catch(func() { stack.ScanSnapshot(rd, w, &stack.Opts{}) })
+		if n := len(obs); n > 0 {
+			obs[n-1][1] = rd.pos - obs[n-1][0]
+		}
 		res.Eval(input+fmt.Sprint(sched), strings.Count(pass, "\n") >= 2)
 		op := map[string]interface{}{"input": hb(input), "sched": sched}
+		// correspondence: the instrumented model's Read events for the same delivery
+		if i%2 == 0 && len(input) < 6000 {
+			lop := map[string]interface{}{"op": "livelog", "data": hb(input), "sched": schedCopy, "withData": false}
+			want := jsonStr(obs)
+			pool.Send(lop, func(raw json.RawMessage) {
+				res.Trace()
+				var rep struct {
+					Reads [][3]int `json:"reads"`
+				}
+				json.Unmarshal(raw, &rep)
+				if got := jsonStr(rep.Reads); got != want {
+					res.Disagree(Finding{Stream: "S5 livelog", What: fmt.Sprintf("Read events (delivered, returned, written) differ: model %s impl %s", clip(got), clip(want)), Op: lop})
+				}
+			})
+		}
 		if p != nil {
 			res.Violation(Finding{Stream: "trace", What: fmt.Sprintf("panic: %v", p), Op: op})
 		}
